@@ -30,7 +30,7 @@ func init() {
 			"XHTML: in safe mode out_xhtml == voidfix(out_html) exactly (voidfix rewrites the '>' closing a br/hr/img/input start tag into ' />'); in unsafe mode a lock-step walk allows only that difference. " +
 			"HardWraps: a lock-step walk allows only '\\n' versus '<br>\\n' ('<br />\\n'), and the number of such places must equal the number of soft-break text nodes of the parsed tree that are rendered as text (not raw, not inside an image description or code span). " +
 			"Unsafe: a lock-step walk guided by the raw fragments of the parsed tree (HTML block lines, closure line, raw inline HTML outside image descriptions, in render order) allows only placeholder-versus-fragment, every fragment must be consumed, " +
-			"and an empty-versus-value href/src only when the value is classified dangerous. Non-trivial = at least one pair of outputs actually differed; distinct = distinct (AST shape signature, extension set, set of effective axes).",
+			"and an empty-versus-value href/src only when the value is classified dangerous. For one source in four the same relations are also checked on the parsed tree after every node got a class attribute through the public API (what an AST transformer may do), rendered by the 8 renderers. Non-trivial = at least one pair of outputs actually differed; distinct = distinct (AST shape signature, extension set, set of effective axes).",
 		Assumptions: []string{
 			"the tree used to count soft breaks and to list raw fragments comes from the same parser configuration (the property is about renderer options); it is read through public accessors",
 			"'classified as dangerous' = goldmark's exported IsDangerousURL on the raw or written destination, or the browser-like normaliser of C04; blanking is permitted for such values, never required here (that is C04)",
@@ -364,7 +364,12 @@ type c10Stats struct {
 }
 
 // c10Eval renders src under the 8 flag combinations and checks the 12 single-flag pairs.
-func c10Eval(g *c10Group, src []byte) (res []c10Result, st c10Stats) {
+func c10Eval(g *c10Group, src []byte) (res []c10Result, st c10Stats) { return c10EvalMode(g, src, false) }
+
+// c10EvalMode: with decorate, the parsed tree gets a class attribute on every node through the public API (what an AST
+// transformer or a caller may do between Parse and Render) and the same tree is rendered by the 8 renderers; the relations
+// between the outputs are the same.
+func c10EvalMode(g *c10Group, src []byte, decorate bool) (res []c10Result, st c10Stats) {
 	st.voids = map[string]int{}
 	var outs [8][]byte
 	var doc ast.Node
@@ -372,7 +377,27 @@ func c10Eval(g *c10Group, src []byte) (res []c10Result, st c10Stats) {
 	if pv != nil || doc == nil {
 		return nil, st
 	}
+	if decorate {
+		_ = ast.Walk(doc, func(n ast.Node, entering bool) (ast.WalkStatus, error) {
+			if entering && n.Kind() != ast.KindDocument {
+				if _, ok := n.AttributeString("class"); !ok {
+					n.SetAttributeString("class", []byte("zz"))
+				}
+			}
+			return ast.WalkContinue, nil
+		})
+	}
 	for f := 0; f < 8; f++ {
+		if decorate {
+			var buf bytes.Buffer
+			var err error
+			pv, _ := core.Try(func() { err = g.md[f].Renderer().Render(&buf, src, doc) })
+			if pv != nil || err != nil {
+				return nil, st
+			}
+			outs[f] = append([]byte(nil), buf.Bytes()...)
+			continue
+		}
 		r := convert(g.md[f], src)
 		if !r.OK() {
 			return nil, st
@@ -509,6 +534,17 @@ func c10Check(c *core.Ctx, groups map[string]*c10Group, base cfg.Spec, src []byt
 	}
 	c.Begin(name, src)
 	res, st := c10Eval(g, src)
+	if st.evaluable && len(src)%4 == 0 {
+		dres, dst := c10EvalMode(g, src, true)
+		if dst.evaluable {
+			c.Count("decorated_trees", 1)
+			c.Evals(8)
+			for _, r := range dres {
+				r.locus = "decorated-tree:" + r.locus
+				res = append(res, r)
+			}
+		}
+	}
 	c.End()
 	c.Evals(8)
 	if !st.evaluable {
@@ -560,17 +596,24 @@ func c10Check(c *core.Ctx, groups map[string]*c10Group, base cfg.Spec, src []byt
 			continue
 		}
 		fresh := c10Build(base)
+		deco := strings.HasPrefix(r.locus, "decorated-tree:")
+		bare := strings.TrimPrefix(r.locus, "decorated-tree:")
 		min := core.Minimize(src, func(b []byte) bool {
-			rs, _ := c10Eval(fresh, b)
+			rs, _ := c10EvalMode(fresh, b, deco)
 			for _, x := range rs {
-				if x.class == r.class && x.locus == r.locus {
+				if x.class == r.class && x.locus == bare {
 					return true
 				}
 			}
 			return false
 		}, 600)
 		detail := r.detail
-		rs, _ := c10Eval(fresh, min)
+		rs, _ := c10EvalMode(fresh, min, deco)
+		for i := range rs {
+			if deco {
+				rs[i].locus = "decorated-tree:" + rs[i].locus
+			}
+		}
 		for _, x := range rs {
 			if x.class == r.class && x.locus == r.locus {
 				detail = x.detail
@@ -583,7 +626,13 @@ func c10Check(c *core.Ctx, groups map[string]*c10Group, base cfg.Spec, src []byt
 
 func replayC10(c *core.Ctx, v *core.Violation) (bool, string) {
 	g := c10Build(specOf(v.Config))
-	rs, st := c10Eval(g, v.Input)
+	deco := strings.HasPrefix(v.Locus, "decorated-tree:")
+	rs, st := c10EvalMode(g, v.Input, deco)
+	for i := range rs {
+		if deco {
+			rs[i].locus = "decorated-tree:" + rs[i].locus
+		}
+	}
 	if !st.evaluable {
 		return false, "conversion failed (C01)"
 	}
